@@ -5,6 +5,7 @@ H2 CMap.decode trie walk: codespace built through the real FileCMap.add_code2cid
 H3 ToUnicode: real CMapParser.do_keyword(endbfchar / endbfrange) with the operand stack pre-loaded with symbolic byte strings; oracle ISO 32000-1 9.10.3.
 H4 get_widths / get_widths2 (both W syntaxes) with symbolic ints and reals.
 H5 CMapDB cache histories.  H6 PDFCIDFont.__init__ + char_width / char_disp against the W/DW (W2/DW2) arrays.
+H7 TrueTypeFont.create_unicode_map on generated font files with a format-4 cmap (symbolic idDelta / glyphIdArray) against the OpenType rule.
 """
 import z3
 
@@ -17,7 +18,7 @@ from lib.core import Job
 
 ASSUMPTIONS = [
     "predefined CJK CMaps / collection maps (pickled tables) and the 'agrees with platform codecs' clause are static data: not addressable by symbolic execution, not claimed",
-    "embedded TrueType cmap tables (struct-driven binary reading) are not claimed",
+    "embedded TrueType cmap: format 4 is claimed (H7, generated font files, struct.unpack replaced by big-endian arithmetic); formats 0 and 2 are not",
     "bfrange with a string target: the increment stays inside the last byte (ISO 32000-1 9.10.3 forbids overflow)",
     "H3: struct.pack('>L') / int.from_bytes are replaced by arithmetic references; the recorded add_cid2unichr calls are compared (UTF-16BE decoding itself is C code)",
 ]
